@@ -39,6 +39,8 @@ THEOREMS = [
     "Verif.C16.em_link",
     "Verif.C16.em_monotone_tables",
     "Verif.C16.emTables_mono",
+    "Verif.C16.em_link_update",
+    "Verif.C16.dwell_counts_conserve",
 ]
 RULE = (
     "corpus (zero-probability initial states/transitions, the all-impossible model, constant paths, single runs) + "
@@ -748,7 +750,7 @@ def n_ops(case):
         return 2 if len(case["data"]) <= FB_MODEL_T else 1
     if case["op"] == "fb":
         return 2 if emtab_applies(case) else 1
-    return 2 if case["op"] == "dwell" else 1
+    return 3 if case["op"] == "dwell" else 1
 
 
 EMTAB_LIMIT = 243  # K^T up to which the two sides of em_monotone_tables (sums over ALL paths) are also run by the Lean model
@@ -894,10 +896,12 @@ def _impl(case):
         except Unreachable:
             # the anchored private function is not reachable under its name: its ranges cannot be observed ("?"); the counts
             # stay tied through the public extract_dwell_times where the labels can be produced by a model
-            return ["?", public_dwell_counts(case["path"], case["exclude"])]
+            pc = public_dwell_counts(case["path"], case["exclude"])
+            return ["?", pc, str(sum(sum(v) for v in parse_dwells(pc, pair=False).values())) if pc.startswith("[") else "?"]
         ranges = {s: [tuple(r) for r in np.asarray(v).reshape(-1, 2)] for s, v in ranges.items()}
         counts = {s: list(np.atleast_1d(v)) for s, v in counts.items()}
-        return [show_dwells(ranges), show_counts(counts)]
+        # ... and the number of samples all returned dwells cover together (theorem dwell_counts_conserve)
+        return [show_dwells(ranges), show_counts(counts), str(int(sum(int(x) for v in counts.values() for x in v)))]
     if k == "dwell_api":
         labels = case["path"]
         K = case["K"]
@@ -990,7 +994,8 @@ def ops(case):
         return out
     if k == "dwell":
         p = enc_list(case["path"], lambda s: "nan" if s is None else str(int(s)))
-        return [f"c16.dwell {p} {enc_bool(case['exclude'])}", f"c16.dwellc {p} {enc_bool(case['exclude'])}"]
+        return [f"c16.dwell {p} {enc_bool(case['exclude'])}", f"c16.dwellc {p} {enc_bool(case['exclude'])}",
+                f"c16.dwelltot {p} {enc_bool(case['exclude'])}"]
     if k == "dwell_api":
         return [f"c16.dwellc {enc_list(case['path'])} {enc_bool(case['exclude'])}"]
     if k == "dwell_seq":
@@ -1524,7 +1529,19 @@ def oracle(case, ia):
             if cnt != exp:
                 return f"dwell-times: extract_dwell_times gives counts {cnt}, the runs of the path give {exp}"
             return None
-        return oracle_dwell(case["path"], case["exclude"], parse_dwells(a), parse_dwells(ia[1], pair=False))
+        r = oracle_dwell(case["path"], case["exclude"], parse_dwells(a), parse_dwells(ia[1], pair=False))
+        if r is None and len(ia) > 2 and ia[2] != "?":
+            runs, T = runs_of(case["path"]), len(case["path"])
+            if not case["exclude"]:
+                want = T
+            elif len(runs) >= 2:
+                want = T - (runs[0][2] - runs[0][1]) - (runs[-1][2] - runs[-1][1])
+            else:
+                want = 0
+            if int(ia[2]) != want:
+                return (f"dwell-tiling: all dwell counts together cover {ia[2]} samples, expected {want} of the {len(case['path'])} "
+                        f"samples of the trace (exclude_ambiguous_dwells={case['exclude']})")
+        return r
     if k == "dwell_api":
         if is_err(a) or not a.startswith("["):
             return f"extract_dwell_times: {a[:120]}"
